@@ -770,6 +770,28 @@ pub fn type_choices_from_group_choice<'a>(
   type_choices
 }
 
+/// Check that the given text is a URI. `uriparse::URI::try_from(&str)` unwraps
+/// the conversion of a URI reference error into a URI error, which panics for
+/// input such as "::" (schemeless path starting with a colon segment), so the
+/// reference is parsed first and converted afterwards.
+pub(crate) fn validate_uri(s: &str) -> std::result::Result<(), String> {
+  use std::convert::TryFrom;
+
+  match uriparse::URIReference::try_from(s) {
+    Ok(r) => uriparse::URI::try_from(r)
+      .map(|_| ())
+      .map_err(|e| e.to_string()),
+    Err(e) => {
+      let msg = e.to_string();
+      Err(
+        uriparse::URIError::try_from(e)
+          .map(|e| e.to_string())
+          .unwrap_or(msg),
+      )
+    }
+  }
+}
+
 /// Is the given identifier associated with a null data type
 pub fn is_ident_null_data_type(cddl: &CDDL, ident: &Identifier) -> bool {
   if let Token::NULL | Token::NIL = lookup_ident(ident.ident) {
